@@ -156,7 +156,8 @@ Expect == [verdict |-> status.s,
                      posts |-> [j \in 1..Len(reg[i].posts) |-> [acct |-> reg[i].posts[j].acct, amt |-> reg[i].posts[j].amt,
                                                                   kind |-> reg[i].posts[j].kind]]]],
            bal |-> bal, prices |-> prices, lenient |-> ghost.lenient, prec |-> prec, deferred |-> ghost.deferred,
-           acct |-> acct, cmdt |-> cmdt]
+           acct |-> acct, cmdt |-> cmdt,
+           lookup_acct |-> [n \in DOMAIN acct |-> Lookup(acct, n)], lookup_cmdt |-> [n \in DOMAIN cmdt |-> Lookup(cmdt, n)]]
 
 \* expected reports for every date range, for the replay of C04
 \* (the unbounded query is the whole-history report, compared separately: it is shown unrounded)
